@@ -27,6 +27,7 @@ from simpleline.render.screen_stack import ScreenStack, ScreenData      # noqa
 from simpleline.render.screen import UIScreen, InputState              # noqa
 from simpleline.render.screen import input_manager as IM                # noqa
 from simpleline.render.widgets import TextWidget                        # noqa
+from simpleline.render import adv_widgets as AW                         # noqa
 from simpleline.input import input_handler as IH                        # noqa
 from simpleline.input import input_threading as IT                      # noqa
 from simpleline.global_configuration import GlobalConfiguration         # noqa
@@ -45,7 +46,8 @@ class StepLimit(BaseException):
 
 
 def run_session(case):
-    fuel, specs, typed, quit_, run_empty, actions = case
+    fuel, specs, typed, quit_, run_empty, actions = case[:6]
+    kinds = case[6] if len(case) > 6 else None      # optional: kinds[i] != "plain" = use the REAL stock class (harness/adv_specs.py)
     log = []
     st = dict(nsig=0, nq=0, lastget=None, steps=0, nsd=0, lastpop=None, nih=0)
     sid_of, keep = {}, []
@@ -323,6 +325,68 @@ def run_session(case):
         return {0: InputState.PROCESSED, 1: InputState.PROCESSED_AND_REDRAW, 2: InputState.PROCESSED_AND_CLOSE,
                 3: InputState.DISCARDED}.get(r[0]) if r[0] < 4 else ("".join(chr(c) for c in r[1]) if r[0] == 4 else None)
 
+    # the stock dialogs of render/adv_widgets.py: the real class, with the same events logged as by S, nothing else
+    def logged(base, blocking_prompt=False):
+        class Lg(base):
+            def __str__(self):
+                return "A%d" % self.i
+
+            def setup(self, args):
+                U(1, [top_sd().sid, self.i, args or 0, 1])
+                return super().setup(args)
+
+            def refresh(self, args=None):
+                U(2, [top_sd().sid, self.i, args or 0])
+                super().refresh(args)
+
+            def show_all(self):
+                U(3, [top_sd().sid, self.i])
+                super().show_all()
+
+            def closed(self):
+                U(8, [st["lastpop"].sid, self.i])
+                super().closed()
+
+            def prompt(self, args=None):
+                n = st["nih"]
+                if blocking_prompt:                 # PasswordDialog.prompt() asks and waits by itself
+                    U(16, [self.i, n])
+                p = super().prompt(args)
+                if blocking_prompt:
+                    U(13, [self.i, n])
+                if p is not None:
+                    U(18, [self.i, args or 0, n])
+                return p
+
+            def input(self, args, key):
+                U(7, [self.i, args or 0], key)
+                return super().input(args, key)
+        return Lg
+
+    def make_adv(i, kind):
+        name, _, rest = kind.partition(":")
+        if name == "yesno":
+            s = logged(AW.YesNoDialog)("Really?")
+        elif name == "error":
+            s = logged(AW.ErrorDialog)("It failed.")
+        elif name == "help":
+            s = logged(AW.HelpScreen)(None)
+        elif name == "password":
+            s = logged(AW.PasswordDialog, blocking_prompt=True)()
+        elif name in ("getinput", "getpassinput"):
+            s = logged(AW.GetInputScreen if name == "getinput" else AW.GetPasswordInputScreen)("value: ")
+            for pos, keys in json.loads(rest):
+                if pos:
+                    s.add_acceptance_condition(lambda key, ks: key in ks, list(keys))
+                else:
+                    s.add_acceptance_condition(lambda key, ks: key not in ks, list(keys))
+        else:
+            raise AssertionError(kind)
+        if name in ("password", "getpassinput"):
+            s.password_func = lambda text_prompt: fake_get_input()      # getpass -> the scripted reader
+        s.i = i
+        return s
+
     screens = []
 
     def do_cmds(self, cmds, n, in_closed=False):
@@ -462,7 +526,8 @@ def run_session(case):
             conf.should_run_with_empty_stack = bool(run_empty)
             App.initialize(scheduler=sched, event_loop=loop, global_configuration=conf)
             for i, sp in enumerate(specs):
-                s = S(i, sp); screens.append(s); scr_id[id(s)] = i
+                s = make_adv(i, kinds[i]) if (kinds and kinds[i] != "plain") else S(i, sp)
+                screens.append(s); scr_id[id(s)] = i
             if quit_:
                 sched.quit_screen = screens[quit_[0]]
             for a in actions:
